@@ -22,7 +22,6 @@ import (
 	"github.com/miekg/dns"
 
 	"github.com/honeytrap/honeytrap/event"
-	"github.com/honeytrap/honeytrap/listener"
 	"github.com/honeytrap/honeytrap/pushers"
 )
 
@@ -52,21 +51,17 @@ func (s *dnsService) Handle(ctx context.Context, conn net.Conn) error {
 
 	buff := make([]byte, 65535)
 
-	if _, ok := conn.(*listener.DummyUDPConn); ok {
+	// the server hands every connection over behind its timeout wrapper, so the concrete
+	// type is never *listener.DummyUDPConn or *net.TCPConn: look at the network instead
+	switch conn.RemoteAddr().Network() {
+	case "udp", "tcp":
 		n, err := conn.Read(buff[:])
 		if err != nil {
 			return err
 		}
 
 		buff = buff[:n]
-	} else if _, ok := conn.(*net.TCPConn); ok {
-		n, err := conn.Read(buff[:])
-		if err != nil {
-			return err
-		}
-
-		buff = buff[:n]
-	} else {
+	default:
 		log.Error("Unsupported connection type: %s", reflect.TypeOf(conn))
 		return nil
 	}
